@@ -39,7 +39,7 @@ def main():
         ],
         "checks": checks,
         "not_applicable": [{"property_id": p, "reason": r} for p, r in sorted(NOT_APPLICABLE.items())],
-        "notes": "All checks are bounded symbolic verification (solver-decided obligations over the executed real code); see DESIGN.md. Exit 0 = no violation among decided obligations, 1 = replayed violation, 3 = harness error.",
+        "notes": "All checks are bounded symbolic verification (solver-decided obligations over the executed real code); see DESIGN.md. Exit 0 = no violation among decided obligations (listed findings of /verif/known_findings.json are printed as KNOWN-FINDING lines), 1 = replayed violation not listed there, 3 = harness error. Genuine defects repaired in /repo by 'fix:' commits and the recorded findings are listed in /verif/known_findings.json and DESIGN.md section 7.4; seeded breaking changes and which checks catch them in /verif/seeded and DESIGN.md section 7.5.",
     }
     with open(os.path.join(HERE, "MANIFEST.json"), "w") as f:
         json.dump(man, f, indent=1)
